@@ -8,6 +8,8 @@ package main
 //   rt <codec> <flags> <seed>   flags = <selfdelim:0|1><canonical:0|1>; random valid value v (built from the Go types from <seed>):
 //        enc=err                                   the encoder refused the value (counted, not judged)
 //        len=<n> rt=<eq|neq|err> trunc=<n>:<accepted>:<noncanonical> ext=<n>:<accepted> flip=<n>:<accepted>:<unstable> alloc=<ok|big:<bytes>:<what>>
+//   bd <codec> <flags> <bound> <n> <max> <seed>   like rt, for a value whose bounded field <bound> has exactly n elements
+//        (n <= max: must round-trip; n > max: either side may refuse, but never a wrong value / panic / big allocation)
 //   gb <codec> <flags> <hex>    arbitrary bytes: dec=<err|ok> stable=<1|0|-> alloc=<ok|big:..>
 // Modelled ops (propose / clusternet / shared primitives) are in c27_small.go.
 
@@ -31,6 +33,15 @@ type c27Codec struct {
 	dec       func(b []byte) (any, error)
 	eq        func(want, got any) bool // nil => c27Equal
 	seeds     func() [][]byte          // optional directed garbage inputs
+	bounds    []c27Bound               // declared maxima of counts / lengths inside the value
+}
+
+// c27Bound names one declared maximum of a codec and builds a valid value whose
+// bounded field has exactly n elements (bytes); the generator asks for max-1, max, max+1.
+type c27Bound struct {
+	name  string
+	max   int
+	build func(f *c27Filler, n int) any
 }
 
 var c27Codecs = map[string]*c27Codec{}
@@ -502,6 +513,23 @@ func (r *c27Runner) Step(op string) string {
 			return "bad-op"
 		}
 		return c27RoundTrip(c, seed)
+	case "bd":
+		if len(f) != 7 {
+			return "bad-op"
+		}
+		c, ok := c27Codecs[f[1]]
+		n, err1 := strconv.Atoi(f[4])
+		seed, err2 := strconv.ParseUint(f[6], 10, 64)
+		if !ok || err1 != nil || err2 != nil || n < 0 || n > 8<<20 {
+			return "bad-op"
+		}
+		for _, b := range c.bounds {
+			if b.name == f[3] {
+				rnd := NewRand(seed)
+				return c27RoundTripValue(c, b.build(&c27Filler{R: rnd}, n), rnd)
+			}
+		}
+		return "bad-op"
 	case "gb":
 		if len(f) != 4 {
 			return "bad-op"
@@ -533,7 +561,10 @@ func c27B(b bool) int {
 
 func c27RoundTrip(c *c27Codec, seed uint64) string {
 	rnd := NewRand(seed)
-	v := c.gen(&c27Filler{R: rnd})
+	return c27RoundTripValue(c, c.gen(&c27Filler{R: rnd}), rnd)
+}
+
+func c27RoundTripValue(c *c27Codec, v any, rnd *Rand) string {
 	enc, err := c.enc(v)
 	if err != nil {
 		return "enc=err"
@@ -553,7 +584,14 @@ func c27RoundTrip(c *c27Codec, seed uint64) string {
 	if len(enc) > 48 {
 		measureEvery = len(enc) / 48
 	}
+	step := 1
+	if len(enc) > 16<<10 {
+		step = len(enc) / 512 // large boundary values: a sample of the prefixes (always the last 8)
+	}
 	for k := 0; k < len(enc); k++ {
+		if step > 1 && k%step != 0 && k < len(enc)-8 {
+			continue
+		}
 		var tv any
 		var terr error
 		pre := enc[:k:k]
@@ -585,7 +623,10 @@ func c27RoundTrip(c *c27Codec, seed uint64) string {
 		}
 	}
 	// mutations
-	const nmut = 40
+	nmut := 40
+	if len(enc) > 256<<10 {
+		nmut = 6
+	}
 	macc, unstable := 0, 0
 	for i := 0; i < nmut; i++ {
 		m, what := c27Mutate(rnd, enc)
@@ -621,6 +662,22 @@ func genC27(g *Gen) {
 		}
 		for _, s := range [][]byte{nil, {0}, {1}, {0xff}, {1, 0}, {0xff, 0xff, 0xff, 0xff, 0xff, 0xff, 0xff, 0xff, 0xff, 0xff, 0xff}} {
 			g.Op("gb", "%s %s %s", n, c.flags(), Hex(s))
+		}
+	}
+	// every declared maximum exactly: max-1, max, max+1 elements / bytes
+	reps := 1
+	if g.Tier == "thorough" {
+		reps = 3
+	}
+	for _, n := range names {
+		c := c27Codecs[n]
+		for _, b := range c.bounds {
+			for _, k := range []int{b.max - 1, b.max, b.max + 1} {
+				for r := 0; r < reps; r++ {
+					g.Count("bd:" + n + ":" + b.name)
+					g.Op("bd", "%s %s %s %d %d %d", n, c.flags(), b.name, k, b.max, g.R.U64()>>1)
+				}
+			}
 		}
 	}
 	for i := 0; i < g.N; i++ {
